@@ -20,6 +20,9 @@ import (
 // are checked against it before anything is allocated
 const maxStringSize = 512 * 1024 * 1024
 
+// maxRandomCount bounds SRANDMEMBER key -count (members with repetition)
+const maxRandomCount = 1 << 20
+
 func execCommand(conn *redis.Conn, fn func()) {
 	defer func() {
 		if r := recover(); r != nil {
@@ -1373,7 +1376,9 @@ func sRandMember(n *Nodis, conn *redis.Conn, cmd redis.Command) {
 	if len(cmd.Args) > 1 {
 		var err error
 		count, err = strconv.ParseInt(cmd.Args[1], 10, 64)
-		if err != nil {
+		if err != nil || count < -maxRandomCount {
+			// a negative count asks for that many members with repetition: the reply is built in
+			// memory while the key is locked, so the count a client may ask for is bounded
 			conn.WriteError("ERR value is not an integer or out of range")
 			return
 		}
